@@ -135,7 +135,8 @@ def run(ctx):
     # found by key (index from `find`), and nothing is swapped or re-ordered
     b = ctx.anchor("R09c", KV + "remove_value")
     if b:
-        fnd = [(i, t) for i, t in cfg.calls(b) if (cfg.callee_decl(t) or "").endswith("Iterator::find")]
+        fnd = [(i, t) for i, t in cfg.calls(b) if (cfg.callee_decl(t) or "").endswith(("Iterator::find", "Iterator::position",
+                                                                                     "Iterator::find_map"))]
         rem = [(i, t) for i, t in cfg.calls(b) if common.norm(cfg.callee(t) or "").endswith("::remove") and "collections::vec::" in (cfg.callee(t) or "")]
         swaps = [i for i, t in cfg.calls(b) if common.norm(cfg.callee(t) or "").endswith(("::swap", "::swap_remove"))]
         ok = bool(fnd and rem) and not swaps
